@@ -36,7 +36,10 @@ RULE = ("exhaustive small shapes: clean-up of every ordered pair of faces "
         "objects (history ops: the second use is judged like a fresh object's). Per case: the "
         "clauses of C14 are evaluated by the Lean checkers on (input, IMPLEMENTATION's result), the model's result "
         "must equal the implementation's canonical dump, idempotence is observed by running the real operation twice; "
-        "a quarter of the random cases runs under ASan/UBSan")
+        "a quarter of the random cases runs under ASan/UBSan"
+        '; the external-source entry points PointAttribute::DeduplicateValues(in_att [, offset]) (op dedupx, '
+        'oracle only, no model: every destination point carries the bit pattern of its source value, no two '
+        'stored values identical)')
 THEOREM_BACKED = ("dedupValues_preserves / _no_duplicates / _idempotent, dedupPointIds_preserves / _no_duplicates / "
                   "_idempotent, dedup_no_identical_points, cleanup_describes / _describes_exact / _survivors_spec / "
                   "_valid / _nothing_unused (all 16 option subsets), strips_describe_unconditional (both modes), "
@@ -47,8 +50,9 @@ THEOREM_BACKED = ("dedupValues_preserves / _no_duplicates / _idempotent, dedupPo
 TRUSTED_EXTRA = ["harness/ops_meshtools.cc (calls of the real utilities, canonical dump)",
                  "lean/DracoModel/C14Verify.lean (executable statement of the clauses evaluated on the implementation's "
                  "result; proved to hold of the model's result for every operation)"]
-CORRESPONDENCE_ONLY = ("that the model equals the real classes (hash containers, in-place buffer compaction, template "
-                       "dispatch over data types) is tied by the random cases, not proved")
+CORRESPONDENCE_ONLY = ('that the model equals the real classes (hash containers, in-place buffer compaction, template dispatch '
+                       'over data types) is tied by the random cases, not proved; the external-source '
+                       'PointAttribute::DeduplicateValues(in_att [, offset]) has no model: oracle only')
 EXPLANATION = ("full Lean proofs on the executable model of every clause for the attribute types the deduplication "
                "handles; for 64-bit components and more than 4 components the 'no duplicates left' clause is false "
                "of the code (theorems *_unsupported_counterexample) and is not demanded, the 'describes' clauses "
